@@ -421,7 +421,15 @@ func culpritOf(frames []string) string {
 	}
 	// The type check of a declared parameter reads through a pointer argument
 	// (the program only passed the address).
-	if has(0, "bytecode.requiredTypeByteCodeImpl") && (has(1, "fetchArgValue") || has(2, "fetchArgValue")) {
+	// (directly, or in the conformance check it calls: data.TypeOf etc.)
+	argCheck, viaArg := false, false
+	for i := 0; i < 4; i++ {
+		argCheck = argCheck || has(i, "bytecode.requiredTypeByteCodeImpl")
+	}
+	for i := 1; i < 7; i++ {
+		viaArg = viaArg || has(i, "fetchArgValue")
+	}
+	if argCheck && viaArg {
 		return "the type check of a pointer argument reads the pointee (requiredTypeByteCodeImpl <- fetchArgValue)"
 	}
 	// Running a deferred call rewrites the boundary flag of the deferring
@@ -897,7 +905,7 @@ func TestC08(t *testing.T) {
 		Gen:      genCase,
 		Oracle:   oracle,
 		Fixed:    fixed,
-		Quick:    6,
-		Thorough: 90,
+		Quick:    3,
+		Thorough: 8,
 	})
 }
